@@ -48,8 +48,9 @@ def brute(cc, sc, y, Z, doms, sem, w):
 def one_case(rep, cs, seed, i):
     rng = rng_for(seed, PID, i)
     monotone = rng.random() < 0.6
-    style = rng.choice(["disc", "disc", "bin", "gau"])
-    kinds = {"disc": ["cat_probs", "cat_logits", "cat_softmax"], "bin": ["bin", "cat_logits"], "gau": ["gau", "cat_logits", "cat_probs"]}[style]
+    style = rng.choice(["disc", "disc", "emb", "bin", "gau"])
+    kinds = {"disc": ["cat_probs", "cat_logits", "cat_softmax"], "emb": ["emb", "emb", "cat_logits", "cat_probs"],
+             "bin": ["bin", "cat_logits"], "gau": ["gau", "cat_logits", "cat_probs"]}[style]
     o = gen.random_opts(rng, kinds=kinds, monotone=monotone)
     if style == "gau":
         o["nvars"] = min(o["nvars"], 3)
